@@ -87,6 +87,10 @@ var editsDefects = []editsDefect{
 	{name: "devnode-type-upper", list: "deviceNodes", elem: func() any { return obj{"path": "/dev/vx", "type": "C"} }},
 	{name: "devnode-perm-x", list: "deviceNodes", elem: func() any { return obj{"path": "/dev/vx", "type": "c", "major": num("1"), "permissions": "rwx"} }},
 	{name: "devnode-perm-upper", list: "deviceNodes", elem: func() any { return obj{"path": "/dev/vx", "type": "c", "major": num("1"), "permissions": "R"} }},
+	{name: "devnode-perm-x-fifo", list: "deviceNodes", elem: func() any { return obj{"path": "/dev/vx", "type": "p", "permissions": "rwx"} }},
+	{name: "devnode-perm-x-block", list: "deviceNodes", elem: func() any { return obj{"path": "/dev/vx", "type": "b", "major": num("8"), "permissions": "x"} }},
+	{name: "devnode-perm-x-unbuffered", list: "deviceNodes", elem: func() any { return obj{"path": "/dev/vx", "type": "u", "major": num("1"), "permissions": "read-write"} }},
+	{name: "devnode-perm-x-untyped", list: "deviceNodes", elem: func() any { return obj{"path": "/dev/vx", "permissions": "rwz"} }},
 	{name: "devnode-unknown-member", list: "deviceNodes", elem: func() any { return obj{"path": "/dev/vx", "verifUnknown": num("1")} }},
 	{name: "devnode-null", list: "deviceNodes", elem: func() any { return nil }},
 	{name: "devnode-major-string", list: "deviceNodes", elem: func() any { return obj{"path": "/dev/vx", "major": "1"} }},
